@@ -56,8 +56,21 @@ struct Dest {
     /// a test sink that panics on entries it considers invalid (ids divisible by 5), as the
     /// documentation encourages test sinks to do
     strict: bool,
-    /// no scheduling point inside append (runtime test sinks: the global may hold a plain lock here)
+    /// no scheduling point inside append
     atomic: bool,
+    /// tearing this sink down takes a while (scheduling points inside its Drop): a runtime test sink is dropped by
+    /// its guard while the registry of runtime test sinks is locked
+    slow_drop: bool,
+}
+
+impl Drop for Dest {
+    fn drop(&mut self) {
+        if self.slow_drop {
+            for _ in 0..3 {
+                detsim::yield_point();
+            }
+        }
+    }
 }
 
 pub const STRICT_PANIC: &str = "harness: strict test sink rejects this entry";
@@ -91,6 +104,21 @@ macro_rules! with_global {
         }
     };
 }
+
+/// a sink handle whose destructor reports through the global it was meant for (with an id no strict sink rejects:
+/// the destructor runs while the refused attach unwinds)
+struct EmitOnDrop {
+    g: u64,
+    id: u64,
+}
+
+impl Drop for EmitOnDrop {
+    fn drop(&mut self) {
+        let (g, id) = (self.g, self.id);
+        let _ = with_global!(g, G => G::try_append(IdEntry(id)));
+    }
+}
+
 
 struct ThreadState {
     tl_guard: [Option<ThreadLocalTestSinkGuard>; 2],
@@ -136,7 +164,16 @@ fn g_ops(plan: &Value, tno: u64, ops: &[Value], log: &GLog, hist: &History, rts:
                             .build_boxed(s);
                         with_global!(g, G => G::attach((sink, handle)))
                     } else {
-                        with_global!(g, G => G::attach((BoxEntrySink::new(Dest { no: dest, log: log.clone(), strict: false, atomic: false }), ())))
+                        let sink = BoxEntrySink::new(Dest { no: dest, log: log.clone(), strict: jb(op, "strict", false), atomic: false, slow_drop: false });
+                        // An attach that is going to be refused (thread 0 is the only attacher, so the harness knows)
+                        // may bring a handle that emits a last entry through this very global when it is dropped.
+                        // (An *accepted* handle of that kind is not legal: detaching drops it under the global's lock.)
+                        let refused = ctl.lock().unwrap().attach[gi].is_some();
+                        if refused && jb(op, "emitting_handle", false) {
+                            with_global!(g, G => G::attach((sink, EmitOnDrop { g, id: 9_000_001 + 5 * dest })))
+                        } else {
+                            with_global!(g, G => G::attach((sink, ())))
+                        }
                     }
                 });
                 match r {
@@ -177,7 +214,7 @@ fn g_ops(plan: &Value, tno: u64, ops: &[Value], log: &GLog, hist: &History, rts:
             }
             "tl_set" => {
                 let dest = ju(op, "dest", 0);
-                let sink = BoxEntrySink::new(Dest { no: dest, log: log.clone(), strict: jb(op, "strict", false), atomic: false });
+                let sink = BoxEntrySink::new(Dest { no: dest, log: log.clone(), strict: jb(op, "strict", false), atomic: false, slow_drop: false });
                 match catch(|| with_global!(g, G => G::set_test_sink(sink))) {
                     Ok(guard) => {
                         ts.tl_guard[gi] = Some(guard);
@@ -192,7 +229,7 @@ fn g_ops(plan: &Value, tno: u64, ops: &[Value], log: &GLog, hist: &History, rts:
             "with_tl" => {
                 let dest = ju(op, "dest", 0);
                 let id = ju(op, "id", 0);
-                let sink = BoxEntrySink::new(Dest { no: dest, log: log.clone(), strict: false, atomic: false });
+                let sink = BoxEntrySink::new(Dest { no: dest, log: log.clone(), strict: false, atomic: false, slow_drop: false });
                 let panic_after = jb(op, "panic_after", false);
                 match catch(|| with_global!(g, G => G::with_test_sink(sink, || {
                     G::append(IdEntry(id));
@@ -207,7 +244,7 @@ fn g_ops(plan: &Value, tno: u64, ops: &[Value], log: &GLog, hist: &History, rts:
             "rt_set" => {
                 let dest = ju(op, "dest", 0);
                 let r = ju(op, "rt", 0) as usize % rts.len().max(1);
-                let sink = BoxEntrySink::new(Dest { no: dest, log: log.clone(), strict: jb(op, "strict", false), atomic: true });
+                let sink = BoxEntrySink::new(Dest { no: dest, log: log.clone(), strict: jb(op, "strict", false), atomic: !jb(op, "yields", false), slow_drop: jb(op, "slow_drop", false) });
                 let handle = rts[r].handle().clone();
                 // inside that very runtime's context the "current runtime" form is equivalent
                 let on_current = ts.rt_enter.as_ref().map(|(cur, _)| *cur == r as u64).unwrap_or(false);
@@ -223,6 +260,19 @@ fn g_ops(plan: &Value, tno: u64, ops: &[Value], log: &GLog, hist: &History, rts:
                 let r = ju(op, "rt", 0) % rts.len().max(1) as u64;
                 let gd = ctl.lock().unwrap().rt_guard.remove(&(g, r));
                 if gd.is_some() { "ok".into() } else { "none".into() }
+            }
+            "rt_drop_both" => {
+                // the guards of both runtimes (same global) go away at the same time on two threads: each drop
+                // takes the registry lock, and a slow sink is torn down while it is held
+                let (g0, g1) = {
+                    let mut c = ctl.lock().unwrap();
+                    (c.rt_guard.remove(&(g, 0)), c.rt_guard.remove(&(g, 1)))
+                };
+                let out = format!("{}{}", if g0.is_some() { "a" } else { "-" }, if g1.is_some() { "b" } else { "-" });
+                let helper = detsim::thread::spawn_named("guard-dropper", move || drop(g1));
+                drop(g0);
+                let _ = helper.join();
+                out
             }
             "enter" => {
                 let r = ju(op, "rt", 0) as usize % rts.len().max(1);
@@ -374,7 +424,7 @@ pub fn check_c17(plan: &Value, h: &[GEv], hist: &[Ev]) -> Option<Violation> {
     let _ = plan;
     let ops = parse_ops(h);
     // destinations created as strict test sinks (they panic on ids divisible by 5 after recording the delivery)
-    let strict_dests: BTreeSet<u64> = ops.iter().filter(|o| matches!(o.name.as_str(), "tl_set" | "rt_set") && jb(&o.spec, "strict", false)).map(|o| ju(&o.spec, "dest", 0)).collect();
+    let strict_dests: BTreeSet<u64> = ops.iter().filter(|o| matches!(o.name.as_str(), "tl_set" | "rt_set" | "attach") && jb(&o.spec, "strict", false) && !(o.name == "attach" && jb(&o.spec, "queue", false))).map(|o| ju(&o.spec, "dest", 0)).collect();
     // deliveries per entry id: direct destinations and queue-backed ones (stream no = dest)
     let mut delivered: BTreeMap<u64, Vec<(u64, u64)>> = BTreeMap::new();
     for e in h {
@@ -442,6 +492,14 @@ pub fn check_c17(plan: &Value, h: &[GEv], hist: &[Ev]) -> Option<Violation> {
                     if op.outcome == "ok" {
                         rt_now.insert(r, None);
                         rt_changes.entry(r).or_default().push((op.inv, op.ret, None));
+                    }
+                }
+                "rt_drop_both" => {
+                    for (r, c) in [(0u64, 'a'), (1, 'b')] {
+                        if op.outcome.contains(c) {
+                            rt_now.insert(r, None);
+                            rt_changes.entry(r).or_default().push((op.inv, op.ret, None));
+                        }
                     }
                 }
                 _ => {}
@@ -653,14 +711,33 @@ pub fn gen_c17(rng: &mut Rng) -> Value {
                 8 => ops.push(if rng.chance(0.5) { json!({"op":"is_attached","g":g}) } else { json!({"op":"sleep","ns": 1_000 * (1 + rng.below(100_000))}) }),
                 9 | 10 => {
                     next_dest += 1;
-                    ops.push(json!({"op":"attach","g":g,"dest":next_dest,"queue": rng.chance(0.4),"stream": rng.chance(0.5)}));
+                    ops.push(json!({"op":"attach","g":g,"dest":next_dest,"queue": rng.chance(0.4),"stream": rng.chance(0.5),"strict": rng.chance(0.2),"emitting_handle": rng.chance(0.5)}));
                 }
                 11 => ops.push(json!({"op":"detach","g":g,"in_panic": rng.chance(0.2)})),
                 12 => {
                     next_dest += 1;
-                    ops.push(json!({"op":"rt_set","g":g,"rt":rng.below(2),"dest":next_dest,"strict": rng.chance(0.3)}));
+                    ops.push(json!({"op":"rt_set","g":g,"rt":rng.below(2),"dest":next_dest,"strict": rng.chance(0.3),"yields": rng.chance(0.4),"slow_drop": rng.chance(0.4)}));
                 }
-                _ => ops.push(json!({"op":"rt_drop","g":g,"rt":rng.below(2)})),
+                _ => {
+                    if rng.chance(0.3) {
+                        // both runtimes get a test sink (unless they have one), then both guards go at once
+                        if rng.chance(0.7) {
+                            for rt in 0..2u64 {
+                                next_dest += 1;
+                                ops.push(json!({"op":"rt_set","g":g,"rt":rt,"dest":next_dest,"strict":false,"yields": rng.chance(0.4),"slow_drop": rng.chance(0.7)}));
+                            }
+                        }
+                        ops.push(json!({"op":"rt_drop_both","g":g}));
+                        // ... and routing must be back to the next destination, a new install must work
+                        let id = next_id;
+                        next_id += 1;
+                        ops.push(json!({"op":"enter","rt":rng.below(2)}));
+                        ops.push(json!({"op":"append","g":g,"id":id,"how":"try"}));
+                        ops.push(json!({"op":"leave"}));
+                    } else {
+                        ops.push(json!({"op":"rt_drop","g":g,"rt":rng.below(2)}));
+                    }
+                }
             }
         }
         if t == 0 && forget_run {
